@@ -420,6 +420,9 @@ class GenFlow:
         self.clock = rich and r.random() < 0.5     # a plain (non-call) argument expression reading the evaluation clock
         self.rseed = r.getrandbits(32)
         self.wide = False
+        if rich and self.results and self.rseed % 4 == 0:
+            # two Results targets of the same type: both are written
+            self.results.append(self.results[self.rseed % len(self.results)])
         if self.bare:
             self.has_conc = True
 
@@ -472,6 +475,13 @@ class GenFlow:
                 muts.append("%s = %s" % (nm, late_rhs))
                 return nm
             return arg(decl_rhs)
+        free_local = None
+        if self.bare and pool:
+            free_local = pool.pop()
+            pre.append("%s := \"user:%s\"" % (free_local, free_local))
+            pre.append("_ = %s" % free_local)
+            self.expect_extras["local"] = "user:" + free_local
+            self.local_task = "t%d" % self.tasks[0]["id"]
         opts = []
         ctx_expr = arg("x.Ctx")
         pexprs = []
@@ -532,6 +542,9 @@ class GenFlow:
                 body = []
                 if t["wantctx"]:
                     body.append("x.CheckCtx(\"%s\", ctx)" % tid)
+                if free_local and t["id"] == self.tasks[0]["id"]:
+                    # a free variable of the task literal named like an identifier the generated code declares
+                    body.append("x.Extra(\"local\", %s)" % free_local)
                 callargs = ", ".join(["\"%s\"" % callid, str(len(t["outs"]))] + ["a%d.S" % i for i in range(len(t["ins"]))])
                 body.append("outs, err := x.Call(%s)" % callargs)
                 body.append("_, _ = outs, err")
@@ -541,7 +554,10 @@ class GenFlow:
                 if retvals:
                     body.append("return " + ", ".join(retvals))
                 return "func%s {\n\t\t\t%s\n\t\t}" % (sig, "\n\t\t\t".join(body))
-            targs = [bare(fnlit(tid), fnlit(tid + "late"), 0.3)]
+            if free_local and t["id"] == self.tasks[0]["id"]:
+                targs = [fnlit(tid)]     # the function literal itself is the argument (not wrapped, not named)
+            else:
+                targs = [bare(fnlit(tid), fnlit(tid + "late"), 0.3)]
             if t["pred"] is not None:
                 pp = (["ctx context.Context"] if t["predctx"] else []) + ["b%d T%d" % (i, ty) for i, ty in enumerate(t["pred"])]
 
